@@ -639,10 +639,25 @@ func checkIter(cs *iterCase, o *pt.Obs) error {
 	o.Max("log_bytes", int64(len(data)))
 
 	faultPath := filepath.Join(dir, "fault.wal")
+	ff, err := os.OpenFile(faultPath, os.O_CREATE|os.O_RDWR|os.O_TRUNC, 0o644)
+	if err != nil {
+		return pt.Inconclusivef("fault image: %v", err)
+	}
+	defer ff.Close()
+	curLen := 0
 	run := func(img []byte) (readResult, error) {
-		if err := os.WriteFile(faultPath, img, 0o644); err != nil {
-			return readResult{}, pt.Inconclusivef("write fault image: %v", err)
+		// one pwrite per fault; the file is only cut when the image gets shorter
+		if len(img) < curLen {
+			if err := ff.Truncate(int64(len(img))); err != nil {
+				return readResult{}, pt.Inconclusivef("write fault image: %v", err)
+			}
 		}
+		if len(img) > 0 {
+			if _, err := ff.WriteAt(img, 0); err != nil {
+				return readResult{}, pt.Inconclusivef("write fault image: %v", err)
+			}
+		}
+		curLen = len(img)
 		r := readLog(cs.Kind, faultPath, limit)
 		switch {
 		case r.ctorErr != nil:
